@@ -1,15 +1,31 @@
 import BSModel.Driver.Util
-import BSModel.Model.Construct
+import BSModel.Model.Envelope
 namespace BS.Drv.C06
 open BS.Construct BS.Drv
 
 def errName : Err → String
-  | .parserRejectedMarkup => "ParserRejectedMarkup"
-  | .assertionError => "AssertionError"
-  | .valueError => "ValueError"
-  | .unicodeEncodeError => "UnicodeEncodeError"
-  | .unicodeError => "UnicodeError"
+  | .baseException => "BaseException" | .exception => "Exception"
+  | .keyboardInterrupt => "KeyboardInterrupt" | .systemExit => "SystemExit" | .generatorExit => "GeneratorExit"
+  | .arithmeticError => "ArithmeticError" | .overflowError => "OverflowError" | .zeroDivisionError => "ZeroDivisionError"
+  | .assertionError => "AssertionError" | .attributeError => "AttributeError"
+  | .lookupError => "LookupError" | .indexError => "IndexError" | .keyError => "KeyError"
+  | .valueError => "ValueError" | .unicodeError => "UnicodeError" | .unicodeDecodeError => "UnicodeDecodeError"
+  | .unicodeEncodeError => "UnicodeEncodeError" | .unicodeTranslateError => "UnicodeTranslateError"
+  | .typeError => "TypeError" | .runtimeError => "RuntimeError" | .recursionError => "RecursionError"
+  | .notImplementedError => "NotImplementedError" | .memoryError => "MemoryError" | .stopIteration => "StopIteration"
+  | .osError => "OSError" | .importError => "ImportError" | .nameError => "NameError"
+  | .parserRejectedMarkup => "ParserRejectedMarkup" | .featureNotFound => "FeatureNotFound" | .stopParsing => "StopParsing"
+  | .warningClass => "Warning"
   | .other k => s!"Other{k}"
+  | .otherBase k => s!"OtherBase{k}"
+
+/-- class name of the protocol -> class (`Other<k>` / `OtherBase<k>` for the open families) -/
+def parseErr (s : String) : Err :=
+  match Err.named.find? (fun e => errName e == s) with
+  | some e => e
+  | none =>
+    if s.startsWith "OtherBase" then .otherBase ((s.drop 9).toString.toNat?.getD 0)
+    else .other ((s.drop 5).toString.toNat?.getD 0)
 
 def parseMarkup (kind cpsTok : String) : Markup :=
   if kind == "b" then .bytes (cps cpsTok) else .str (cps cpsTok)
@@ -91,7 +107,81 @@ def ctorOutcome (old : Bool) (mk : Markup) (dammitSome : Bool) (tok : String) (o
   | .ok (), some e => "err " ++ errName e
   | .ok (), none => "tree"
 
+def parsePoint (s : String) : Option Point :=
+  Point.all.find? fun p => (reprStr p).endsWith ("." ++ s)
+
+def parseCode (s : String) : Code :=
+  if s == "v4130" then Code.v4130
+  else if s == "close-unguarded" then { Code.live with closeGuarded := false }
+  else Code.live
+
+def showVerdict : Verdict → String
+  | .tree => "tree"
+  | .prm => "prm"
+  | .escapes e => "escapes " ++ errName e
+
+/-- `key:value;…` rows -/
+def rows (s : String) : List (String × String) :=
+  (splitNE ";" s).filterMap fun item =>
+    match item.splitOn ":" with
+    | [k, v] => some (k, v)
+    | _ => none
+
+def lookupRow (rs : List (String × String)) (k : Nat) : Option String :=
+  (rs.find? (·.1 == toString k)).map (·.2)
+
+/-- `t` text, `z` empty text, `!Class` raises -/
+def parseDecodeCell (s : String) : Except Err PStr :=
+  if s == "t" then .ok [120] else if s == "z" then .ok []
+  else .error (parseErr (s.drop 1).toString)
+
+/-- UnicodeDammit over raising primitives: candidates (ids or `!Class` where the generator raises), spellings per name,
+    `codecs.lookup` per spelling, codec id per spelling, fallback codec per name, decode table, `ascii` names, the log call -/
+def dammitEOp (code : Code) (cands spell look canon lowered table ascii log : String) : String :=
+  let spellR := rows spell
+  let lookR := rows look
+  let canonR := rows canon
+  let lowR := rows lowered
+  let tabR := (splitNE ";" table).filterMap fun item =>
+    match item.splitOn ":" with
+    | [c, a, b] => c.toNat?.map fun n => (n, a, b)
+    | _ => none
+  let asciiIds := cps ascii
+  let P : Prims Unit :=
+    { Prims.quiet with
+      cands := (splitNE "," cands).map fun t => if t.startsWith "!" then .error (parseErr (t.drop 1).toString) else .ok t.toNat!
+      spellings := fun e => match lookupRow spellR e with
+        | some v => natList "." v
+        | none => []
+      lookup := fun sp => match lookupRow lookR sp with
+        | some "ok" => .ok ()
+        | some v => .error (parseErr (v.drop 1).toString)
+        | none => .error .lookupError
+      canon := fun sp => ((lookupRow canonR sp).bind String.toNat?).getD 0
+      lowered := fun e => (lookupRow lowR e).bind String.toNat?
+      decode := fun c repl => match tabR.find? (·.1 == c) with
+        | some (_, a, b) => parseDecodeCell (if repl then b else a)
+        | none => .error .lookupError
+      isAscii := fun e => asciiIds.contains e
+      logWarning := if log == "ok" then .ok () else .error (parseErr (log.drop 1).toString) }
+  match dammitE code P with
+  | .error c => "escapes " ++ errName c
+  | .ok r =>
+    match r.unicodeMarkup with
+    | none => s!"none repl={bit r.containsReplacement}"
+    | some t => s!"some enc={r.originalEncoding.getD 0} repl={bit r.containsReplacement} empty={bit t.isEmpty}"
+
 def handle : List String → String
+  | ["dammite", code, cands, spell, look, canon, lowered, table, ascii, log] =>
+    dammitEOp (parseCode code) cands spell look canon lowered table ascii log
+  | ["inject", code, pt, cls] =>
+    match parsePoint pt with
+    | some p => showVerdict (predict (parseCode code) p (parseErr cls))
+    | none => "bad-op"
+  | ["issub", a, b] => bit ((parseErr a).isSub (parseErr b))
+  | ["covers", code] => bit (Covers (parseCode code) ⟨[], [], [.lookupError, .valueError, .unicodeEncodeError],
+      [.lookupError, .valueError, .unicodeEncodeError, .unicodeDecodeError, .unicodeError], [], [], [], [],
+      [.assertionError, .valueError], [.valueError], [.unicodeDecodeError, .unicodeError], [.valueError, .overflowError], []⟩)
   | ["heur", kind, c] => showWarning (heuristics (parseMarkup kind c))
   | ["heurold", kind, c] => showWarning (heuristicsOld (parseMarkup kind c))
   | ["guard", kind, c] => bit (heuristicsGuard (parseMarkup kind c))
